@@ -13,44 +13,66 @@ DRIVER_DEPS = ["EzdxfVerif.Model.Curve", "EzdxfVerif.Gen.CurveKernels", "Drivers
 REL_TOL = 1e-9  # float result vs exact rational referee: |impl - exact| <= REL_TOL * max(1, |exact|, scale)
 RULE = (
     "correspondence (Lean model over exact Rat vs real code, BOTH twins ezdxf.math._bspline/_bezier4p/_bezier3p and "
-    "ezdxf.acc.*, imported directly): X1 find_span, exact integers, on every knot vector as generated, shifted so that "
-    "knots[p]==0 (binary search branch) and shifted by +1 (linear search branch), u on every knot, between knots, below and "
-    "above the domain; X2 basis_funcs for the found span and for arbitrary spans (empty span = ZeroDivisionError class) and "
-    f"Evaluator.point incl. rational weights, floats compared with the model's exact rationals within rel. tolerance {REL_TOL} "
-    "(excluded and counted: rational cases outside the span whose exact weight sum is 0, the decision band of `s == 0.0`); "
-    "X2 reference: the Lean Cox-de Boor sum = the harness referee, exactly; X3 Bezier4P/Bezier3P point/tangent/reverse/"
-    "transform against the kernels translated from the current .py and .pyx source; X4 insert_knot (result and error "
-    "class) and reverse knots; X5 bulge_center/radius/apex closed form vs the trigonometric code. Non-trivial = the "
-    "parameter lies inside the knot range / 0<t<1 / an operation was applied; distinct by hash of (stream, request, twin). "
+    "ezdxf.acc.*, imported directly; BSpline level code run on a chosen twin): X1 find_span, exact integers, on every knot "
+    "vector as generated, shifted so that knots[p]==0 (binary search branch) and shifted by +1 (linear search branch), u on "
+    "every knot, between knots, below and above the domain; X2 basis_funcs for the found span and for arbitrary spans (empty "
+    f"span = ZeroDivisionError class), Basis.basis_vector and Evaluator.point incl. rational weights, floats compared with the model's exact "
+    f"rationals within rel. tolerance {REL_TOL} (excluded and counted: rational cases outside the span whose exact weight sum "
+    "is 0, the decision band of `s == 0.0`); X2 reference: the Lean Cox-de Boor sum = the harness referee, exactly; X3 "
+    "Bezier4P/Bezier3P point/tangent/reverse/transform against the kernels translated from the current .py and .pyx source; "
+    "X4 insert_knot non rational AND rational (knots, weights, control points, error class; excluded and counted: rational "
+    "insertion beyond the domain end, where the new weight is an extrapolation that can be exactly 0) and reverse knots; X5 "
+    "bulge_center/radius/apex closed form vs the trigonometric code; X6 knot_refinement (repeated, existing and invalid "
+    "knots); X7 curvetools.split_bezier (1..12 points, Vec3 and Vec2, t inside/outside [0,1]); X8 reverse().point at the "
+    "mirrored parameter incl. weights (a parameter ON a knot is taken from the reversed spline's own knots); X9 "
+    "basis_funcs_derivatives (A2.3) for n = 1, p, p+2 on one span and n = min(p,2) on a second one, and "
+    "Evaluator.derivative (A3.2/A4.2, rational included); X10 BSpline.split, non rational and rational (both halves: knots, weights, control points, error "
+    "classes incl. t on a knot, at both domain ends, outside); X11 curvetools.bezier_to_bspline (cubic/quadratic mixed, "
+    "with and without gaps; on the real code every segment = its Bezier curve, exact referee); X12 the generic Bezier class "
+    "(3..10 points): point and derivative() = (point, d1, d2) incl. both end formulas and the snapping of t near 1, reverse() and transform(m); X13 open_uniform_knot_vector / uniform_knot_vector for counts 2..13, orders 2..9, both normalize settings. Non-trivial = the parameter "
+    "lies inside the knot range / 0<t<1 / an operation was applied; distinct by hash of (stream, request, twin). "
     "oracle (real code only, referee = independent Cox-de Boor pieces / de Casteljau in Fractions): O1 points and derivatives "
     "up to order 3 for degrees 1..7, clamped/unclamped/non-uniform knots, rational weights, every knot of the domain and "
     "both ends; O2 curve sampled before/after insert_knot, knot_refinement, transform (any knot vector), reverse, "
-    "degree_elevation, split (also at an existing knot), bezier_decomposition (clamped); O3 interpolation hits fit points "
-    "and end tangents (pairwise distinct fit points, degree >= 2); O4 rational arcs/ellipses lie on the conic; O5 bulge/arc, "
-    "angle/param, Rytz round trips; O6 Bezier curves vs Bernstein form and hodograph."
+    "degree_elevation, split (also at an existing knot), bezier_decomposition (clamped), rational weights in ~40 % of the "
+    "splines of every operation that accepts them; O3 interpolation hits fit points and end tangents (pairwise distinct fit "
+    "points, degree >= 2; random sets plus adversarial ones: zig-zag and hair-pin data with direction reversals, very unequal "
+    "spacing, a spiral); O4 rational arcs/ellipses lie on the conic, ellipses and ConstructionEllipse.from_arc circles with "
+    "unit, NON-UNIT and tilted extrusion vectors (referee: textbook frame centre / major axis / unit normal, independent of "
+    "the stored minor axis), cubic_bezier_from_ellipse within 0.2 %; O5 bulge/arc, angle/param, Rytz round trips and the "
+    "ellipse-axis conversions: minor_axis() = unit normal x major * ratio, swap_axis() keeps the ellipse and is an involution, "
+    "dxfattribs() for ratio > 1; O6 Bezier curves vs Bernstein form and hodograph."
 )
 TRUSTED_BASE = [
     "Vec3/Vec2/Matrix44 arithmetic is component-wise as modelled by V3/Affine (property C10/C11; here validated by correspondence)",
     "the mini translator in harness/props/c13.py (Bezier point/tangent kernels, signed_bulge_radius: straight-line arithmetic only) emits Lean text that means what the source means; cross-checked by stream X3/X5",
-    "hand model of find_span/basis_funcs/span_weighting/Evaluator.point/insert_knot tied to the code by correspondence only",
+    "hand model (Model/Curve.lean) of the generic Bezier class (point, derivative), basis_vector, rational knot_refinement, find_span, basis_funcs, span_weighting, Evaluator.point, basis_funcs_derivatives (A2.3, all orders, the two persistent rows of `a` included), Evaluator.derivative (A3.2/A4.2), insert_knot, _insert_knot_rational (numpy 4-vectors read component-wise), knot_refinement, reverse, split_bspline (+ the BSpline constructor checks and knot normalisation), split_bezier, quadratic_to_cubic_bezier, bezier_to_bspline: tied to the code by the correspondence streams X1-X13; translated from source are only the Bezier4P/3P and bulge kernels and the kernels named in surgery_kernels_match_source (new_point of both insert_knot branches, de Casteljau level, quadratic_to_cubic_bezier, d1/d2 weights of Bezier.derivative)",
+    "np.searchsorted(knots, t, side='right') is modelled by the bisect_right loop over the whole vector (same result on nondecreasing input)",
+    "math.isclose snapping of u to max_t in Evaluator.point/derivative is not modelled (the harness passes exact parameters)",
     "closed form of bulge_center: derived by hand from the trig code (angle addition, cos/sin of 2*atan b), validated numerically by stream X5",
     "float arithmetic of the implementation is compared with exact rationals within 1e-9 relative tolerance; rounding is not modelled",
+    "Mathlib's Polynomial.derivative / Polynomial.eval are THE derivative / evaluation of a polynomial (basis_derivative_is_polynomial_derivative ties cdbFD to them)",
 ]
 ASSUMPTIONS = [
-    "knot vectors handed to BSpline start at 0 (otherwise the constructor rescales them; covered by one oracle stream only)",
+    "knot vectors handed to BSpline start at 0 (otherwise the constructor rescales them; covered by one oracle stream only); split_bspline_preserves states it as hypothesis",
     "parameters are passed exactly (dyadic or small rationals rounded once to double)",
+    "bezier_to_bspline_segments: curves lined up seamlessly (`seamless`, decidable); with gaps the B-spline uses the end point of the previous curve (stream X11 covers both)",
 ]
 OPEN = [
-    "findSpan_spec / evalPoint_total / evalPoint_domain_end / bspline_affine need a non-degenerate domain knots[p] < knots[count] (necessary: a single-point domain has no non-empty span)",
-    "insert_knot_preserves (Boehm), knot refinement, degree elevation, Bezier decomposition, split, reverse of B-splines: not proved, oracle on the real code only",
-    "basis_funcs_derivatives (A2.3) and the rational derivative (A4.2): not modelled, oracle vs exact derivative only",
-    "interpolation solvers, conic -> NURBS constructions, ellipse/arc angle<->parameter conversions: oracle only",
+    "findSpan_spec / evalPoint_total / evalPoint_domain_end / bspline_affine / bspline_reverse need a non-degenerate domain knots[p] < knots[count] (necessary: a single-point domain has no non-empty span)",
+    "insert_knot_preserves(+_domain_end), knot_refinement_preserves(+_domain_end), insert_knot_rational_preserves need t <= knots[count]: for knots[count] < t < max_t (unclamped knots only) insert_knot puts t in front of smaller knots (result knot vector not nondecreasing; the points on the domain still agree in every sample): observation, see reports/C13.md",
+    "bspline_reverse / bspline_continuous_at_knot need interior multiplicity <= degree (multLeDegree; necessary, #guard counterexample); bspline_reverse_pieces / bspline_reverse_partial hold without it; rational reverse: bspline_reverse_rational under the same hypothesis",
+    "split_bspline_preserves (+ split_bspline_second_half_domain_end): knots start at 0, t < knots[count], u in [U[p], t) resp. [t, U[count]]; split_bspline_first_half_cut adds u = t under multLeDegree and U[p] < t; split_bspline_rational_preserves: the NURBS case on the half open intervals (at the cut / end point: oracle + X10 only)",
+    "derivatives of order >= 2 (A2.3 rows 2.., A4.2 k >= 2): modelled for every order and corresponded (X9), proved only for order 1 (basis_derivative_first, evalDerivative_first, rational_derivative_first)",
+    "degree_elevation (A5.9), bezier_decomposition (A5.6): not modelled, oracle on the real code only (bspline_bezier_segment proves that a fully refined spline IS its Bezier segments, the refinement loop of A5.6 itself is not modelled)",
+    "generic Bezier class: d2 at t = 0 and t = 1 (closed formulas) corresponded (X12), not proved; fewer than 3 definition points are outside the documented domain (derivative(0) raises IndexError for 2 points)",
+    "interpolation solvers (basis_vector_collocation reduces 'passes through the fit points' to the exactness of the linear solve), conic -> NURBS constructions, ellipse/arc angle<->parameter conversions: oracle only",
 ]
 
 SRC_FILES = [
     "src/ezdxf/math/_bezier4p.py", "src/ezdxf/math/_bezier3p.py", "src/ezdxf/acc/bezier4p.pyx", "src/ezdxf/acc/bezier3p.pyx",
     "src/ezdxf/math/_bspline.py", "src/ezdxf/acc/bspline.pyx", "src/ezdxf/math/bspline.py", "src/ezdxf/math/bulge.py",
-    "src/ezdxf/math/linalg.py", "src/ezdxf/acc/constants.h",
+    "src/ezdxf/math/linalg.py", "src/ezdxf/acc/constants.h", "src/ezdxf/math/curvetools.py", "src/ezdxf/math/bezier.py",
 ]
 
 
@@ -98,6 +120,9 @@ class Sym:
                 return ("s", f"{base[1]}.{e.attr}")
             raise Untranslatable(f"attribute {key}")
         if isinstance(e, ast.Subscript):
+            key = ast.unparse(e)
+            if key in self.env:
+                return self.env[key]
             base = self.expr(e.value)
             if base[0] == "v" and isinstance(e.slice, ast.Constant) and e.slice.value in (0, 1, 2):
                 return ("s", f"{base[1]}.{'xyz'[e.slice.value]}")
@@ -120,6 +145,8 @@ class Sym:
             if op is ast.Mult and {ka, kb} == {"v", "s"}:
                 v, s = (a, b) if ka == "v" else (b, a)
                 return ("v", f"(V3.scale {v} {s})")
+            if op is ast.Div and ka == "v" and kb == "s":  # Vec3.__truediv__(scalar): component-wise division
+                return ("v", f"(V3.scale {a} (1 / {b}))")
             raise Untranslatable(f"operand kinds {ka} {op.__name__} {kb}")
         if isinstance(e, ast.Call):
             if self.opaque:
@@ -325,10 +352,99 @@ def translate_kernels(ctx) -> str:
     return "\n".join(defs)
 
 
+def _find_def(node, name):
+    for n in ast.walk(node):
+        if isinstance(n, ast.FunctionDef) and n.name == name:
+            return n
+    raise Untranslatable(f"def {name} not found")
+
+
+def translate_kernels2(ctx) -> str:
+    """kernels of the curve surgery code: Boehm's `new_point` (both branches of insert_knot), the de Casteljau level of
+    split_bezier, quadratic_to_cubic_bezier, the derivative weights of the generic Bezier class"""
+    bs = ast.parse(ctx.src("src/ezdxf/math/bspline.py"))
+    ct = ast.parse(ctx.src("src/ezdxf/math/curvetools.py"))
+    bz = ast.parse(ctx.src("src/ezdxf/math/bezier.py"))
+    V = lambda n: ("v", n)
+    S = lambda n: ("s", n)
+    defs = []
+    cls = next(n for n in bs.body if isinstance(n, ast.ClassDef) and n.name == "BSpline")
+    for meth, arr, name in (("insert_knot", "cpoints", "insNewPointPy"), ("_insert_knot_rational", "hg_points", "insNewPointRatPy")):
+        f = _find_def(_find_def(cls, meth), "new_point")
+        if [a.arg for a in f.args.args] != ["index"]:
+            raise Untranslatable(f"{meth}.new_point signature")
+        sym = Sym({"t": S("t"), "knots[index]": S("ki"), "knots[index + p]": S("kip"), f"{arr}[index - 1]": V("c0"), f"{arr}[index]": V("c1")})
+        sym.run(f.body)
+        if sym.ret is None or sym.ret[0] != "v":
+            raise Untranslatable(f"{meth}.new_point does not return a point")
+        defs.append(f"def {name} (ki kip t : Rat) (c0 c1 : V3) : V3 :=\n{sym.lean()}\n")
+        # the slice that is replaced and the position of the new knot
+        src = ast.unparse(_find_def(cls, meth))
+        if "[new_point(i) for i in range(k - p + 1, k + 1)]" not in src or "knots.insert(k + 1, t)" not in src or "[k - p + 1:k] =" not in src:
+            raise Untranslatable(f"{meth}: slice assignment / knots.insert changed")
+    # split_bezier: the generator expression of one de Casteljau level
+    f = _find_def(_find_def(ct, "split_bezier"), "split")
+    gens = [n for n in ast.walk(f) if isinstance(n, ast.GeneratorExp)]
+    if len(gens) != 1 or ast.unparse(gens[0].generators[0].iter) != "range(n)":
+        raise Untranslatable("split_bezier: level expression")
+    sym = Sym({"t": S("t"), "points[i]": V("a"), "points[i + 1]": V("b")})
+    k, tx = sym.expr(gens[0].elt)
+    if k != "v":
+        raise Untranslatable("split_bezier: level expression is not a point")
+    defs.append(f"def lerpPy (a b : V3) (t : Rat) : V3 :=\n  {tx}\n")
+    src = ast.unparse(f)
+    if "left.append(points[0])" not in src or "right.append(points[n])" not in src:
+        raise Untranslatable("split_bezier: left/right collection changed")
+    # quadratic_to_cubic_bezier
+    f = _find_def(ct, "quadratic_to_cubic_bezier")
+    sym = Sym({"curve.control_points": ("tuple", [V("s0"), V("c"), V("e")])})
+    body = [st for st in f.body if not isinstance(st, ast.Return)]
+    sym.run(body)
+    ret = [st for st in f.body if isinstance(st, ast.Return)]
+    if len(ret) != 1 or ast.unparse(ret[0].value) != "Bezier4P((start, control_1, control_2, end))":
+        raise Untranslatable("quadratic_to_cubic_bezier: return value")
+    for nm in ("control_1", "control_2"):
+        if sym.env.get(nm, ("", ""))[0] != "v":
+            raise Untranslatable(f"quadratic_to_cubic_bezier: {nm}")
+    defs.append(f"def quadC1Py (s0 c e : V3) : V3 :=\n  {sym.env['control_1'][1]}\n")
+    defs.append(f"def quadC2Py (s0 c e : V3) : V3 :=\n  {sym.env['control_2'][1]}\n")
+    # generic Bezier.derivative: the weights of pts[i] between the ends
+    cls = next(n for n in bz.body if isinstance(n, ast.ClassDef) and n.name == "Bezier")
+    f = _find_def(cls, "derivative")
+    inner = [n for n in ast.walk(f) if isinstance(n, ast.If) and ast.unparse(n.test) == "0.0 < t < 1.0"]
+    if len(inner) != 1:
+        raise Untranslatable("Bezier.derivative: interior branch")
+    sym = Sym({"t": S("t"), "t2": S("(t * t)"), "i": S("i"), "n0": S("n0"), "tmp_bas": S("bas")})
+    if "t2 = t * t" not in ast.unparse(f):
+        raise Untranslatable("Bezier.derivative: t2")
+    for st in inner[0].body:
+        if isinstance(st, ast.Assign):
+            sym.run([st])
+        elif isinstance(st, ast.AugAssign) and isinstance(st.op, ast.Add) and isinstance(st.target, ast.Name) and st.target.id in ("d1", "d2"):
+            v = st.value
+            if not (isinstance(v, ast.BinOp) and isinstance(v.op, ast.Mult) and ast.unparse(v.right) == "pts[i]"):
+                raise Untranslatable("Bezier.derivative: weight * pts[i]")
+            k, tx = sym.expr(v.left)
+            if k != "s":
+                raise Untranslatable("Bezier.derivative: weight is not a scalar")
+            lets = "".join(f"  {l}\n" for l in sym.lets)
+            defs.append(f"def bez{st.target.id.upper()}CoeffPy (i n0 t bas : Rat) : Rat :=\n{lets}  {tx}\n")
+        else:
+            raise Untranslatable(f"Bezier.derivative: statement {ast.unparse(st)[:60]}")
+    if len([d for d in defs if d.startswith("def bezD")]) != 2:
+        raise Untranslatable("Bezier.derivative: d1/d2 weights")
+    src = ast.unparse(f)
+    for frag in ("d1 = n0 * (pts[1] - pts[0])", "d2 = n0 * n0_1 * (pts[0] - 2.0 * pts[1] + pts[2])", "d1 = n0 * (pts[n0] - pts[n0_1])",
+                 "d2 = n0 * n0_1 * (pts[n0] - 2 * pts[n0_1] + pts[n0 - 2])", "1.0 - t < 5e-06"):
+        if frag not in src:
+            raise Untranslatable(f"Bezier.derivative: end formula changed ({frag})")
+    return "\n".join(defs)
+
+
 def regenerate(ctx):
     for f in SRC_FILES:
         ctx.src(f)
-    kernels = translate_kernels(ctx)
+    kernels = translate_kernels(ctx) + "\n" + translate_kernels2(ctx)
     # FACTORIAL table of bspline.pyx (used by the rational derivative, A4.2)
     pyx = ctx.src("src/ezdxf/acc/bspline.pyx")
     m = re.search(r"cdef double\[(\d+)\] FACTORIAL = \[(.*?)\]", pyx, re.S)
@@ -608,6 +724,8 @@ def bernstein_point(pts, t):
 
 # ====================================================================== generators
 DY = [Fr(k, 4) for k in range(-32, 33)]
+# plane normals of arcs/ellipses: unit, non-unit and tilted (DXF accepts any non-null (210, 220, 230) vector)
+EXTRUSIONS = [(0, 0, 1), (0, 0, -1), (0, 0, 1), (0, 0, 2), (0, 0, -0.5), (1, 1, 1), (2, -1, 2), (0, 3, 4), (-0.2, 0.1, 0.3)]
 
 
 def gen_point(rng, flat=False, big=False):
@@ -823,10 +941,51 @@ def correspond(ctx):
                         C.add("X2 basis/point", req, "ok " + sk, nums, twin=im.name)
                     except ZeroDivisionError as e:
                         C.add("X2 basis/point", req, err_name(e), twin=im.name)
+            # Basis.basis_vector: the collocation row of the interpolation solvers
+            if U[p] <= u <= U[count]:
+                for ww in ([None, w] if w else [None]):
+                    req = f"bvec|{order}|{count}|{rs(u)}|{rlist(U)}|{rlist(ww) if ww else ''}"
+                    for im in tw:
+                        try:
+                            bv = im.basis(U, order, count, ww).basis_vector(float(u))
+                            C.add("X2 basis/point", req, "ok " + ",".join("#" * len(bv)), [float(x) for x in bv], twin=im.name)
+                        except ZeroDivisionError as e:
+                            C.add("X2 basis/point", req, err_name(e), twin=im.name)
             # the Lean Cox-de Boor sum (what the theorems talk about) = the referee of the oracle, exactly
             if U[p] <= u < U[count]:
                 ex = RefCurve(U, order, cps).point(u)
                 C.add_exact("X2 reference", f"ref|{order}|{rs(u)}|{rlist(U)}|{vlist(cps)}", vs(ex), twin="referee")
+        # ---- X9: basis_funcs_derivatives (A2.3, all orders up to the degree) and Evaluator.derivative (A3.2 / A4.2)
+        for u in dom + [U[count] + Fr(1, 4)]:
+            spans = {ref_span(U, p, count, u) if u >= U[p] else p}
+            spans.add(rng.randrange(p, count))
+            for s in sorted(spans):
+                for nd in sorted({1, p, p + 2} if s == min(spans) else {min(p, 2)}):
+                    req = f"ders|{order}|{s}|{rs(u)}|{nd}|{rlist(U)}"
+                    for im in tw:
+                        b = im.basis(U, order, count)
+                        try:
+                            rows = b.basis_funcs_derivatives(s, float(u), nd)
+                            C.add("X9 derivatives", req, "ok " + ";".join(",".join("#" * len(r)) for r in rows),
+                                  [float(x) for r in rows for x in r], twin=im.name)
+                        except ZeroDivisionError as e:
+                            C.add("X9 derivatives", req, err_name(e), twin=im.name)
+            if U[p] <= u:
+                for ww in ([None, w] if w else [None]):
+                    if ww and u > U[count]:
+                        continue
+                    nd = rng.choice([1, min(p, 2), p])
+                    req = f"deriv|{order}|{rs(u)}|{nd}|{rlist(U)}|{rlist(ww) if ww else ''}|{vlist(cps)}"
+                    for im in tw:
+                        ev = im.evaluator(U, order, cps, ww)
+                        try:
+                            ds = ev.derivative(float(u), nd)
+                            nums = []
+                            for q in ds:
+                                nums += [q.x, q.y, q.z]
+                            C.add("X9 derivatives", req, "ok " + ",".join(["#:#:#"] * len(ds)), nums, twin=im.name)
+                        except ZeroDivisionError as e:
+                            C.add("X9 derivatives", req, err_name(e), twin=im.name)
         # ---- X4: insert_knot / reverse knots (BSpline level, both twins)
         if True:
             ts = [rng.choice(dom) for _ in range(2)] + [U[p] / 2 if U[p] > 0 else Fr(-1), U[-1], U[-1] + 1, Fr(0),
@@ -849,6 +1008,28 @@ def correspond(ctx):
                                   nums, twin=im.name)
                         except Exception as e:  # noqa
                             C.add("X4 insert_knot", req, err_name(e), twin=im.name)
+            if w:
+                for t in dict.fromkeys(ts):
+                    if U[count] < t < U[-1]:
+                        # beyond the domain end Boehm's formula EXTRAPOLATES (a > 1): new weights can be exactly 0 in
+                        # rationals and a rounding residue in floats (ZeroDivisionError vs huge values); excluded, counted
+                        ctx.hist("X4 insert_knot", "excluded: rational insertion beyond the domain end")
+                        continue
+                    req = f"insr|{order}|{rs(t)}|{rlist(U)}|{rlist(w)}|{vlist(cps)}"
+                    for im in tw:
+                        with use_twin(im):
+                            from ezdxf.math.bspline import BSpline
+
+                            try:
+                                s2 = BSpline([im.v3(c) for c in cps], order, [float(k) for k in U], [float(x) for x in w]).insert_knot(float(t))
+                                ks, ws, pts = list(s2.knots()), list(s2.weights()), list(s2.control_points)
+                                nums = list(ks) + list(ws)
+                                for q in pts:
+                                    nums += [q.x, q.y, q.z]
+                                C.add("X4 insert_knot", req, "ok " + ",".join("#" * len(ks)) + "|" + ",".join("#" * len(ws)) + "|" + ",".join(["#:#:#"] * len(pts)),
+                                      nums, twin=im.name + "/rational")
+                            except Exception as e:  # noqa
+                                C.add("X4 insert_knot", req, err_name(e), twin=im.name + "/rational")
             for shift in (Fr(0), Fr(3, 2)):
                 from ezdxf.math.bspline import BSpline
 
@@ -856,9 +1037,240 @@ def correspond(ctx):
                 # BSpline normalises a knot vector that does not start at 0; reverse() normalises again
                 ks = list(BSpline([impls()[0].v3(c) for c in cps], order, [float(k) for k in Us]).reverse().knots())
                 C.add("X4 insert_knot", f"revk|{rlist(Us)}", ",".join("#" * len(ks)), ks, twin="bspline.py")
+        # ---- X6: knot_refinement = iterated insert_knot (BSpline level, both twins)
+        if U[p] < U[count]:
+            lo, hi = U[p], U[count]
+            inner = [k for k in dict.fromkeys(U) if lo < k < hi]
+            for trial in range(3):
+                ts = [lo + (hi - lo) * Fr(rng.randint(1, 31), 32) for _ in range(rng.choice([1, 2, 3, 4]))]
+                if trial == 1:
+                    ts.append(ts[0])  # repeated new knot
+                    if inner:
+                        ts.insert(1, rng.choice(inner))  # an existing knot (may exceed multiplicity p: both sides must agree)
+                if trial == 2:
+                    ts.insert(rng.randrange(len(ts) + 1), rng.choice([Fr(0), U[-1], U[p] / 2 if U[p] > 0 else Fr(-1), U[-1] + 1]))
+                req = f"refine|{order}|{rlist(ts)}|{rlist(U)}|{vlist(cps)}"
+                for im in tw:
+                    with use_twin(im):
+                        from ezdxf.math.bspline import BSpline
+
+                        try:
+                            s2 = BSpline([im.v3(c) for c in cps], order, [float(k) for k in U]).knot_refinement([float(t) for t in ts])
+                            ks, pts = list(s2.knots()), list(s2.control_points)
+                            nums = list(ks)
+                            for q in pts:
+                                nums += [q.x, q.y, q.z]
+                            C.add("X6 knot_refinement", req, "ok " + ",".join("#" * len(ks)) + "|" + ",".join(["#:#:#"] * len(pts)),
+                                  nums, twin=im.name)
+                        except Exception as e:  # noqa
+                            C.add("X6 knot_refinement", req, err_name(e), twin=im.name)
+                if w and all(lo <= t <= hi for t in ts):
+                    # rational refinement (insert_knot dispatches to _insert_knot_rational); inside the domain only, see X4
+                    req = f"refiner|{order}|{rlist(ts)}|{rlist(U)}|{rlist(w)}|{vlist(cps)}"
+                    for im in tw:
+                        with use_twin(im):
+                            from ezdxf.math.bspline import BSpline
+
+                            try:
+                                s2 = BSpline([im.v3(c) for c in cps], order, [float(k) for k in U], [float(x) for x in w]).knot_refinement([float(t) for t in ts])
+                                ks, ws, pts = list(s2.knots()), list(s2.weights()), list(s2.control_points)
+                                nums = list(ks) + list(ws)
+                                for q in pts:
+                                    nums += [q.x, q.y, q.z]
+                                C.add("X6 knot_refinement", req, "ok " + ",".join("#" * len(ks)) + "|" + ",".join("#" * len(ws)) + "|" + ",".join(["#:#:#"] * len(pts)),
+                                      nums, twin=im.name + "/rational")
+                            except Exception as e:  # noqa
+                                C.add("X6 knot_refinement", req, err_name(e), twin=im.name + "/rational")
+            # ---- X10: split (split_bspline): both halves, knots and control points, error classes
+            sts = [lo + (hi - lo) * Fr(rng.randint(1, 15), 16)] + inner[:1] + [rng.choice([lo, hi, Fr(0), U[-1], (hi + U[-1]) / 2, lo / 2])]
+            for t in dict.fromkeys(sts):
+                req = f"split|{order}|{rs(t)}|{rlist(U)}|{vlist(cps)}"
+                for im in tw:
+                    with use_twin(im):
+                        from ezdxf.math.bspline import BSpline
+
+                        try:
+                            a, b = BSpline([im.v3(c) for c in cps], order, [float(k) for k in U]).split(float(t))
+                            nums, sk = [], []
+                            for h in (a, b):
+                                ks, pts = list(h.knots()), list(h.control_points)
+                                nums += [float(k) for k in ks]
+                                for q in pts:
+                                    nums += [q.x, q.y, q.z]
+                                sk.append(",".join("#" * len(ks)) + "|" + ",".join(["#:#:#"] * len(pts)))
+                            C.add("X10 split", req, "ok " + "|".join(sk), nums, twin=im.name)
+                        except ZeroDivisionError as e:
+                            C.add("X10 split", req, err_name(e), twin=im.name)
+                        except ValueError as e:  # DXFValueError is a ValueError subclass? keep the class name
+                            C.add("X10 split", req, err_name(e), twin=im.name)
+                        except Exception as e:  # noqa
+                            C.add("X10 split", req, err_name(e), twin=im.name)
+                if w and lo <= t <= hi:
+                    req = f"splitr|{order}|{rs(t)}|{rlist(U)}|{rlist(w)}|{vlist(cps)}"
+                    for im in tw:
+                        with use_twin(im):
+                            from ezdxf.math.bspline import BSpline
+
+                            try:
+                                a, b = BSpline([im.v3(c) for c in cps], order, [float(k) for k in U], [float(x) for x in w]).split(float(t))
+                                nums, sk = [], []
+                                for h in (a, b):
+                                    ks, ws, pts = list(h.knots()), list(h.weights()), list(h.control_points)
+                                    nums += [float(k) for k in ks] + [float(x) for x in ws]
+                                    for q in pts:
+                                        nums += [q.x, q.y, q.z]
+                                    sk.append(",".join("#" * len(ks)) + "|" + ",".join("#" * len(ws)) + "|" + ",".join(["#:#:#"] * len(pts)))
+                                C.add("X10 split", req, "ok " + "|".join(sk), nums, twin=im.name + "/rational")
+                            except Exception as e:  # noqa
+                                C.add("X10 split", req, err_name(e), twin=im.name + "/rational")
+            # ---- X8: reverse(): the reversed spline at the mirrored parameter (rational included), both twins
+            mx = U[-1]
+            for u in dom:
+                for ww in ([None, w] if w else [None]):
+                    req = f"revpt|{order}|{rs(u)}|{rlist(U)}|{rlist(ww) if ww else ''}|{vlist(cps)}"
+                    for im in tw:
+                        with use_twin(im):
+                            from ezdxf.math.bspline import BSpline
+
+                            try:
+                                r = BSpline([im.v3(c) for c in cps], order, [float(k) for k in U], [float(x) for x in ww] if ww else None).reverse()
+                                # a parameter ON a knot is taken from the reversed spline's own (rounded) knots, so that no
+                                # sample falls 1 ulp outside the domain or on the other side of the knot
+                                par = r.knots()[len(U) - 1 - U.index(u)] if u in U else float(1 - u / mx)
+                                v = r.point(par)
+                                sk, nums = fv(v)
+                                C.add("X8 reverse", req, "ok " + sk, nums, twin=im.name)
+                            except ZeroDivisionError as e:
+                                C.add("X8 reverse", req, err_name(e), twin=im.name)
+    split_bezier_cases(ctx, C, tw)
+    knot_vector_cases(ctx, C)
+    generic_bezier_cases(ctx, C)
+    bezier_to_bspline_cases(ctx, C, tw)
     bezier_cases(ctx, C, tw)
     bulge_cases(ctx, C)
     C.run()
+
+
+def bezier_to_bspline_cases(ctx, C: "Cases", tw):
+    """X11: curvetools.bezier_to_bspline (cubic and quadratic curves mixed, seamless or not): knots and control
+    points vs the model; on the real code the B-spline over [k, k+1) must be curve k (exact de Casteljau referee)"""
+    from ezdxf.math.curvetools import bezier_to_bspline
+
+    rng = ctx.rng("b2b")
+    for i in range(ctx.n(150, 2000)):
+        n = rng.choice([0, 1, 1, 2, 2, 3, 4, 6]) if i % 25 == 0 else rng.choice([1, 1, 2, 2, 3, 4, 6])
+        seam = i % 7 != 6
+        chains, last = [], gen_point(rng)
+        for k in range(n):
+            deg = rng.choice([3, 3, 2])
+            pts = [last if (seam or k == 0) else gen_point(rng)] + [gen_point(rng) for _ in range(deg)]
+            last = pts[-1]
+            chains.append(pts)
+        req = "b2b|" + ";".join(vlist(c) for c in chains)
+        for im in tw:
+            curves = [(im.Bezier4P if len(c) == 4 else im.Bezier3P)([im.v3(q) for q in c]) for c in chains]
+            import ezdxf.math.curvetools as CT
+
+            saved = CT.Bezier4P
+            CT.Bezier4P = im.Bezier4P  # quadratic_to_cubic_bezier builds its result with the module level name: same twin
+            try:
+                sp = bezier_to_bspline(curves)
+            except ValueError as e:
+                C.add("X11 bezier_to_bspline", req, err_name(e), nontrivial=False, twin=im.name)
+                continue
+            finally:
+                CT.Bezier4P = saved
+            ks, pts = list(sp.knots()), list(sp.control_points)
+            nums = [float(k) for k in ks]
+            for q in pts:
+                nums += [q.x, q.y, q.z]
+            C.add("X11 bezier_to_bspline", req, "ok " + ",".join("#" * len(ks)) + "|" + ",".join(["#:#:#"] * len(pts)), nums, twin=im.name)
+            if seam:
+                for k, c in enumerate(chains):
+                    for x in (Fr(0), Fr(1, 4), Fr(5, 8)):
+                        ex = bernstein_point(c, x)
+                        v = sp.point(float(k + x))
+                        ctx.count("X11 bezier_to_bspline", ("pt", i, k, str(x), im.name), True)
+                        if not vclose(v, ex, 8.0):
+                            ctx.fail(f"b2b/segment/{im.name}/{i}/k={k}/x={rs(x)}", f"bezier_to_bspline: point({float(k + x)}) = {tuple(v)} but curve {k} at {float(x)} is {[float(a) for a in ex]}",
+                                     {"op": "b2b", "curves": [[vs(q) for q in c] for c in chains], "k": k, "x": rs(x), "twin": im.name})
+        ctx.hist("X11 bezier_to_bspline", f"n={n}" + ("" if seam else "/gaps"))
+
+
+def generic_bezier_cases(ctx, C: "Cases"):
+    """X12: the generic Bezier class (bezier.py, 3..10 definition points): point and (point, d1, d2) of derivative(),
+    both end formulas, the snapping of t close to 1, out of range parameters"""
+    from ezdxf.math import Bezier, Vec3
+
+    rng = ctx.rng("bezn")
+    ts = [Fr(0), Fr(1), Fr(1, 2), Fr(1, 4), Fr(3, 4), Fr(1, 8), Fr(5, 16), Fr(63, 64), Fr(1, 64), 1 - Fr(1, 2 ** 20), 1 - Fr(1, 2 ** 16),
+          Fr(-1, 4), Fr(5, 4)]
+    for i in range(ctx.n(250, 3000)):
+        n = rng.choice([3, 3, 4, 4, 5, 6, 7, 8, 10])
+        pts = [gen_point(rng, i % 3 == 0) for _ in range(n)]
+        curve = Bezier([Vec3(float(q[0]), float(q[1]), float(q[2])) for q in pts])
+        for t in rng.sample(ts, 4) + [Fr(0), Fr(1)]:
+            req = f"bezn|{rs(t)}|{vlist(pts)}"
+            try:
+                v = curve.point(float(t))
+                a, b, c = curve.derivative(float(t))
+                nums = []
+                for q in (v, a, b, c):
+                    nums += [q.x, q.y, q.z]
+                C.add("X12 generic Bezier", req, "ok #:#:#;#:#:#;#:#:#;#:#:#", nums, nontrivial=0 <= t <= 1, twin="bezier.py")
+            except ValueError as e:
+                C.add("X12 generic Bezier", req, err_name(e), nontrivial=False, twin="bezier.py")
+        # reverse() and transform(m)
+        from ezdxf.math import Matrix44
+
+        aff = gen_affine(rng)
+        im = impls()[-1] if impls()[-1].Matrix44 is Matrix44 else impls()[0]
+        M = matrix_of(im, aff)
+        rv, tr = curve.reverse(), curve.transform(M)
+        for t in rng.sample(ts[:9], 3):
+            req = f"beznx|{rs(t)}|{vlist(pts)}|{rlist(aff)}"
+            a, b = rv.point(float(t)), tr.point(float(t))
+            C.add("X12 generic Bezier", req, "ok #:#:#;#:#:#", [a.x, a.y, a.z, b.x, b.y, b.z], twin="bezier.py")
+        ctx.hist("X12 generic Bezier", f"n={n}")
+
+
+def knot_vector_cases(ctx, C: "Cases"):
+    """X13: open_uniform_knot_vector / uniform_knot_vector (the knots BSpline.__init__ builds when none are given)"""
+    from ezdxf.math.bspline import open_uniform_knot_vector, uniform_knot_vector
+
+    for count in range(2, 14):
+        for order in range(2, min(count, 9) + 1):
+            for norm in (True, False):
+                for kind, fn in (("open", open_uniform_knot_vector), ("uniform", uniform_knot_vector)):
+                    ks = fn(count, order, normalize=norm)
+                    C.add("X13 knot vectors", f"kvec|{kind}|{count}|{order}|{int(norm)}", ",".join("#" * len(ks)), [float(k) for k in ks],
+                          twin="bspline.py")
+
+
+def split_bezier_cases(ctx, C: "Cases", tw):
+    """X7: curvetools.split_bezier (de Casteljau, any degree) on Vec3 and Vec2 points of both twins"""
+    from ezdxf.math.curvetools import split_bezier
+
+    rng = ctx.rng("split-bezier")
+    ts = [Fr(0), Fr(1), Fr(1, 2), Fr(1, 4), Fr(3, 4), Fr(3, 8), Fr(1, 64), Fr(63, 64), Fr(5, 16), Fr(-1, 4), Fr(5, 4)]
+    for i in range(ctx.n(250, 3000)):
+        n = 1 if i % 40 == 39 else rng.choice([2, 2, 3, 3, 4, 4, 4, 5, 6, 7, 8, 9, 12])
+        flat = i % 3 == 0
+        pts = [gen_point(rng, flat, i % 5 == 4) for _ in range(n)]
+        for t in rng.sample(ts, 3):
+            req = f"bsplit|{rs(t)}|{vlist(pts)}"
+            for im in tw:
+                vv = [im.Vec2(float(q[0]), float(q[1])) for q in pts] if flat and i % 2 == 0 else [im.v3(q) for q in pts]
+                try:
+                    left, right = split_bezier(vv, float(t))
+                    nums = []
+                    for q in list(left) + list(right):
+                        nums += [q.x, q.y, q.z if len(q) > 2 else 0.0]
+                    C.add("X7 split_bezier", req, "ok " + ",".join(["#:#:#"] * len(left)) + "|" + ",".join(["#:#:#"] * len(right)),
+                          nums, nontrivial=0 < t < 1, twin=im.name)
+                except ValueError as e:
+                    C.add("X7 split_bezier", req, err_name(e), nontrivial=False, twin=im.name)
+            ctx.hist("X7 split_bezier", f"n={n}")
 
 
 def gen_affine(rng):
@@ -1197,6 +1609,19 @@ def oracle_interpolation(ctx):
     cases.append([Vec3(*p) for p in [(0, 0), (2, 2), (4, 4), (6, 5), (8, 5), (10, 5), (12, 5)]])
     cases.append([Vec3(*p) for p in [(-7, 9), (-3.5, 6), (7, -3), (-5, -4)]])  # straight start run, spacing ratio 3
     cases.append([Vec3(*p) for p in [(0, 0), (3, 1), (4, 3), (5, 3), (8, 3)]])  # straight end run, spacing ratio 3
+    # adversarial shapes: direction reversals (zig-zag, hair-pins), very unequal spacing, a spiral
+    cases.append([Vec3(*p) for p in [(0, 0), (10, 0), (9, 0.5), (20, 1)]])
+    cases.append([Vec3(*p) for p in [(0, 0), (10, 0), (9, 0.5), (20, 1), (19, 1.5), (30, 2), (29, 3)]])
+    cases.append([Vec3(*p) for p in [(0, 0), (5, 0.1), (0.5, 0.2), (5, 0.3), (0.5, 0.4), (5, 0.5)]])
+    cases.append([Vec3(*p) for p in [(0, 0), (1, 0), (1, 1), (0, 1), (0, 0.1), (0.9, 0.1), (0.9, 0.9), (0.1, 0.9)]])
+    cases.append([Vec3(*p) for p in [(0, 0), (0.01, 0), (10, 0.5), (10.01, 0.5), (20, -3), (20.5, 8)]])
+    cases.append([Vec3(math.cos(k * 0.9) * (1 + 0.3 * k), math.sin(k * 0.9) * (1 + 0.3 * k), 0.2 * k) for k in range(12)])
+    for _ in range(ctx.n(30, 300)):  # random zig-zags: x alternates forwards / backwards
+        x, pts = 0.0, []
+        for k in range(rng.randint(4, 9)):
+            x += rng.choice([6, 9, 11]) if k % 2 == 0 else -rng.choice([0.5, 1, 2])
+            pts.append(Vec3(x, 0.5 * k + rng.randint(0, 3) / 4, 0))
+        cases.append(pts)
     for ci, pts in enumerate(cases):
         n = len(pts)
         rep = {"id": f"o3-{ci}", "fit_points": [[p.x, p.y, p.z] for p in pts]}
@@ -1323,23 +1748,58 @@ def oracle_conics(ctx):
             for ratio in (1.0, 0.5, 0.1, 1e-3):
                 for seg in (1, 3):
                     c = Vec3(rng.randint(-5, 5), rng.randint(-5, 5), rng.randint(-2, 2))
-                    major = Vec3(rng.choice([1, 3, -2]), rng.choice([0, 2, -1]), 0)
-                    ext = Vec3(0, 0, rng.choice([1, -1]))
+                    # the plane normal: unit, NON-UNIT and tilted extrusion vectors (any non-null vector is legal); the major
+                    # axis is taken perpendicular to it
+                    ext = Vec3(rng.choice(EXTRUSIONS))
+                    if ext.x == 0 and ext.y == 0:
+                        major = Vec3(rng.choice([1, 3, -2]), rng.choice([0, 2, -1]), 0)
+                    else:
+                        major = ext.cross(Vec3(rng.choice([(0, 0, 1), (1, 0, 0), (0, 1, 2)]))).normalize(rng.choice([1, 3, 2.5]))
                     ctx.count("O4 conics", ("ellipse", p0, p1, ratio, seg), True)
                     rep = {"op": "ellipse", "center": list(c), "major": list(major), "ext": list(ext), "ratio": ratio, "p0": p0, "p1": p1, "segments": seg}
                     try:
                         e = ConstructionEllipse(c, major, ext, ratio, p0, p1)
                         s = rational_bspline_from_ellipse(e, segments=seg)
                         a = major.magnitude
-                        ux, uy = major.normalize(), e.minor_axis.normalize()
+                        # textbook frame, independent of the stored minor axis: uz unit normal, uy = uz x ux
+                        ux, uz = major.normalize(), ext.normalize()
+                        uy = uz.cross(ux)
                         dev = 0.0
                         for i in range(17):
                             q = s.point(s.max_t * i / 16) - c
-                            dev = max(dev, abs((q.dot(ux) / a) ** 2 + (q.dot(uy) / (a * ratio)) ** 2 - 1), abs(q.dot(e.extrusion.normalize())))
-                        if dev > 1e-9 or s.point(0).distance(e.start_point) > 1e-8 * a or s.point(s.max_t).distance(e.end_point) > 1e-8 * a:
-                            ctx.fail(f"conic/ellipse/off/{p0:.3f}/{p1:.3f}/{ratio}/{seg}", f"rational_bspline_from_ellipse leaves the ellipse by {dev}", rep)
+                            dev = max(dev, abs((q.dot(ux) / a) ** 2 + (q.dot(uy) / (a * ratio)) ** 2 - 1), abs(q.dot(uz)) / a)
+                        e0 = c + ux * (a * math.cos(p0)) + uy * (a * ratio * math.sin(p0))
+                        e1 = c + ux * (a * math.cos(p1)) + uy * (a * ratio * math.sin(p1))
+                        if dev > 1e-9 or s.point(0).distance(e.start_point) > 1e-8 * a or s.point(s.max_t).distance(e.end_point) > 1e-8 * a \
+                                or e.start_point.distance(e0) > 1e-8 * a or e.end_point.distance(e1) > 1e-8 * a:
+                            ctx.fail(f"conic/ellipse/off/{p0:.3f}/{p1:.3f}/{ratio}/{seg}", f"rational_bspline_from_ellipse leaves the ellipse by {dev} (extrusion {tuple(ext)})", rep)
                     except Exception as ex:  # noqa
                         ctx.fail(f"conic/ellipse/{type(ex).__name__}/{p0:.3f}/{p1:.3f}/{ratio}/{seg}", f"raised {type(ex).__name__}: {ex}", rep)
+    # circular arcs given in an OCS with a non-unit / tilted extrusion: ConstructionEllipse.from_arc -> NURBS on the circle
+    from ezdxf.math import OCS, cubic_bezier_from_ellipse
+
+    for i in range(ctx.n(120, 1200)):
+        ext = Vec3(rng.choice(EXTRUSIONS))
+        r = rng.choice([0.5, 1, 3, 10])
+        cen = Vec3(rng.randint(-5, 5), rng.randint(-5, 5), rng.randint(-2, 2))
+        a0, a1 = rng.choice(angles), rng.choice(angles)
+        ctx.count("O4 conics", ("from_arc", i), True)
+        rep = {"op": "from_arc", "center": list(cen), "radius": r, "ext": list(ext), "start": a0, "end": a1}
+        try:
+            e = ConstructionEllipse.from_arc(cen, r, ext, a0, a1)
+            wc, uz = OCS(ext).to_wcs(cen), ext.normalize()
+            pts = [rational_bspline_from_ellipse(e, segments=rng.choice([1, 4])).point(t) for t in (0.0,)]
+            sp = rational_bspline_from_ellipse(e, segments=rng.choice([1, 4]))
+            pts = [sp.point(sp.max_t * k / 12) for k in range(13)]
+            dev = max(max(abs(q.distance(wc) - r), abs((q - wc).dot(uz))) for q in pts)
+            if dev > 1e-9 * max(1, r) or abs(e.minor_axis.magnitude - r) > 1e-9 * r:
+                ctx.fail(f"conic/from_arc/off/{i}", f"ConstructionEllipse.from_arc(radius={r}, extrusion={tuple(ext)}): the NURBS leaves the circle by {dev}, |minor_axis| = {e.minor_axis.magnitude}", rep)
+            if abs(e.param_span) > 1e-6:
+                bd = max(abs(c4.point(t).distance(wc) - r) for c4 in cubic_bezier_from_ellipse(e, segments=4) for t in (0.0, 0.3, 0.5, 1.0))
+                if bd > 2e-3 * r:  # the cubic approximation of a quarter circle is good to 0.03 %
+                    ctx.fail(f"conic/from_arc/bezier/{i}", f"cubic_bezier_from_ellipse(from_arc radius={r}, extrusion={tuple(ext)}) leaves the circle by {bd}", rep)
+        except Exception as ex:  # noqa
+            ctx.fail(f"conic/from_arc/{type(ex).__name__}/{i}", f"raised {type(ex).__name__}: {ex}", rep)
     # ---- O5 round trips
     def angdiff(a, b):
         return abs((a - b + math.pi) % math.tau - math.pi)
@@ -1350,6 +1810,64 @@ def oracle_conics(ctx):
             ctx.count("O5 round trips", ("angle-param", ratio, i), True)
             if angdiff(param_to_angle(ratio, angle_to_param(ratio, a)), a) > 1e-9 or angdiff(angle_to_param(ratio, param_to_angle(ratio, a)), a) > 1e-9:
                 ctx.fail(f"roundtrip/angle-param/{ratio}/{i}", f"angle_to_param/param_to_angle are not inverse at {a} ratio {ratio}", {"op": "angle-param", "ratio": ratio, "a": a})
+    # ellipse-axis conversions: minor_axis(), swap_axis() (an involution that keeps the point set), dxfattribs() for ratio > 1
+    import copy
+    from ezdxf.math.ellipse import minor_axis as minor_axis_fn
+
+    for i in range(ctx.n(400, 4000)):
+        ext = Vec3(rng.choice(EXTRUSIONS))
+        if ext.x == 0 and ext.y == 0:
+            major = Vec3(rng.choice([1, 3, -2, 0.5]), rng.choice([0, 2, -1]), 0)
+        else:
+            major = ext.cross(Vec3(rng.choice([(0, 0, 1), (1, 0, 0), (0, 1, 2)]))).normalize(rng.choice([1, 3, 2.5]))
+        ratio = rng.choice([1.0, 0.5, 0.1, 0.75, 2.0, 4.0])
+        p0, p1 = rng.choice(params), rng.choice(params)
+        cen = Vec3(rng.randint(-5, 5), rng.randint(-5, 5), rng.randint(-2, 2))
+        ctx.count("O5 round trips", ("ellipse-axis", i), True)
+        rep = {"op": "ellipse-axis", "center": list(cen), "major": list(major), "ext": list(ext), "ratio": ratio, "p0": p0, "p1": p1}
+        try:
+            a = major.magnitude
+            mn = minor_axis_fn(major, ext, ratio)
+            uz = ext.normalize()
+            want = uz.cross(major.normalize()) * (a * ratio)
+            if mn.distance(want) > 1e-9 * a * max(1, ratio):
+                ctx.fail(f"roundtrip/ellipse-axis/minor/{i}", f"minor_axis(major={tuple(major)}, extrusion={tuple(ext)}, ratio={ratio}) = {tuple(mn)}, expected {tuple(want)}", rep)
+                continue
+            e = ConstructionEllipse(cen, major, ext, ratio, p0, p1)
+            e2 = copy.copy(e)
+            e2.swap_axis()
+            tol = 1e-8 * a * max(1, ratio)
+            ux0 = major.normalize()
+            uy0 = uz.cross(ux0)
+
+            def on_curve(q):  # textbook ellipse: centre, major axis, unit normal, ratio
+                d = q - cen
+                return abs((d.dot(ux0) / a) ** 2 + (d.dot(uy0) / (a * ratio)) ** 2 - 1) < 1e-7 and abs(d.dot(uz)) < tol
+
+            # a full ellipse keeps its parameters (documented special case): the start point moves ALONG the same curve
+            full = math.isclose(e.start_param, 0) and math.isclose(e.end_param, math.tau)
+            same_ends = (on_curve(e2.start_point) and on_curve(e2.end_point)) if full else \
+                (e2.start_point.distance(e.start_point) <= tol and e2.end_point.distance(e.end_point) <= tol)
+            if e2.major_axis.distance(e.minor_axis) > tol or abs(e2.ratio * e.ratio - 1) > 1e-9 or not same_ends:
+                ctx.fail(f"roundtrip/ellipse-axis/swap/{i}", "swap_axis() changed the ellipse (axis, ratio or end points)", rep)
+                continue
+            e2.swap_axis()
+            # twice: the same ellipse up to the orientation of the axis (major axis turned by 180 degrees, parameters by pi)
+            same_ends = (on_curve(e2.start_point) and on_curve(e2.end_point)) if full else \
+                (e2.start_point.distance(e.start_point) <= tol and e2.end_point.distance(e.end_point) <= tol)
+            if abs(e2.major_axis.magnitude - a) > tol or abs(e2.ratio - e.ratio) > 1e-9 or not same_ends \
+                    or abs(e2.minor_axis.magnitude - a * ratio) > tol:
+                ctx.fail(f"roundtrip/ellipse-axis/swap-twice/{i}", f"swap_axis() twice is not the identity: |major| {a} -> {e2.major_axis.magnitude}, ratio {e.ratio} -> {e2.ratio}", rep)
+                continue
+            attr = e.dxfattribs()
+            e3 = ConstructionEllipse(attr["center"], attr["major_axis"], attr["extrusion"], attr["ratio"], attr["start_param"], attr["end_param"])
+            same_ends = (on_curve(e3.start_point) and on_curve(e3.end_point)) if full else \
+                (e3.start_point.distance(e.start_point) <= tol and e3.end_point.distance(e.end_point) <= tol)
+            if attr["ratio"] > 1 + 1e-12 or not same_ends \
+                    or abs(Vec3(attr["major_axis"]).magnitude * attr["ratio"] - min(a, a * ratio)) > tol:
+                ctx.fail(f"roundtrip/ellipse-axis/dxfattribs/{i}", "dxfattribs() does not describe the same ellipse with ratio <= 1", rep)
+        except Exception as ex:  # noqa
+            ctx.fail(f"roundtrip/ellipse-axis/{type(ex).__name__}/{i}", f"raised {type(ex).__name__}: {ex}", rep)
     bs = [1, -1, 0.5, -0.5, 2, -2, 0.25, -3, 5, 0.0625, -0.0625, 10, -0.01, 1e-4, -40]
     for i in range(ctx.n(1500, 15000)):
         s = Vec2(rng.randint(-20, 20) / 4, rng.randint(-20, 20) / 4)
@@ -1530,6 +2048,20 @@ def _replay_one(r) -> str | None:
         if op == "cubic_bezier":
             fit_points_to_cubic_bezier(pts)
             return None
+    if op == "b2b":
+        from ezdxf.math.curvetools import bezier_to_bspline
+
+        im = ([i for i in impls() if i.name == r.get("twin")] or impls()[-1:])[0]
+        chains = [[parse_v(q) for q in c] for c in r["curves"]]
+        import ezdxf.math.curvetools as CT
+
+        saved, CT.Bezier4P = CT.Bezier4P, im.Bezier4P
+        try:
+            sp = bezier_to_bspline([(im.Bezier4P if len(c) == 4 else im.Bezier3P)([im.v3(q) for q in c]) for c in chains])
+        finally:
+            CT.Bezier4P = saved
+        k, x = int(r["k"]), Fr(r["x"])
+        return None if vclose(sp.point(float(k + x)), bernstein_point(chains[k], x), 8.0) else "segment differs from its Bezier curve"
     if op == "bezier":
         pts = [parse_v(c) for c in r["points"]]
         t = Fr(r["t"])
